@@ -399,7 +399,12 @@ def splice_body(body: str, spec: FnSpec, n_loops: int, key: str) -> str:
                 hits = [i for i, l in enumerate(lines) if needle in l]
                 if len(hits) <= nth:
                     raise Undecided(f"{key}: anchor {anchor!r} lost")
-                lines.insert(hits[nth], block)
+                L = hits[nth]
+                # the hit may be a continuation line of a multi-line statement (`let x = e\n    .f(..)`):
+                # walk back to the line that starts the statement
+                while L > 0 and lines[L - 1].strip() and not lines[L - 1].rstrip().endswith((";", "{", "}")):
+                    L -= 1
+                lines.insert(L, block)
                 body = "\n".join(lines)
             else:
                 raise Undecided(f"{key}: unknown anchor {anchor}")
